@@ -11,7 +11,11 @@ def run(sid):
         m = json.load(open(f'/var/tmp/matrix/{sid}.json'))
         others = sorted(c for c in m.get('caught_by', []) if c != prop)
     except Exception:
-        pass
+        # no matrix run at hand: keep what an earlier matrix run recorded
+        try:
+            others = json.load(open(f'/verif/seeded/{sid}/meta.json')).get("also_caught_by_quick_tier_of", [])
+        except Exception:
+            pass
     meta = {
         "id": sid, "property": prop,
         "change": what,
